@@ -96,6 +96,18 @@ impl StreamBuilder {
         }
         self.chunks.append(&mut other.chunks);
         self.sync_buf.push_str(&other.sync_buf);
+        // if the other stream continued this stream's chunk numbering (it was created with
+        // `clone_id`), do not hand out the ids it has used a second time
+        if let (Some(mine), Some(theirs)) = (self.id.as_mut(), other.id.as_ref())
+        {
+            if let (Some((mine, my_prefix)), Some((theirs, their_prefix))) =
+                (mine.split_last_mut(), theirs.split_last())
+            {
+                if my_prefix == their_prefix && *theirs > *mine {
+                    *mine = *theirs;
+                }
+            }
+        }
     }
 
     /// Completes the stream.
